@@ -12,6 +12,7 @@ Definition rep_row (g : graph) (v : nat) (row : dictZ) : Prop :=
 Definition rep_graph (gg : dictD) (g : graph) : Prop :=
   forall v, if Nat.ltb v (nv g) then exists row, d_find v gg = Some row /\ rep_row g v row else d_find v gg = None.
 
+Definition rep_vset (n : nat) (vs : list nat) : Prop := forall v, s_mem v vs = Nat.ltb v n.
 Lemma rep_div_intro n dd (f : nat -> Z) : NoDup (d_keys dd) -> (forall v, d_find v dd = if Nat.ltb v n then Some (f v) else None) -> rep_div n dd (tab n f).
 Proof. intros H1 H2. split; [apply tab_length|]. split; [exact H1|]. intros v. rewrite H2. destruct (Nat.ltb_spec v n); [rewrite nthZ_tab by assumption|]; reflexivity. Qed.
 
